@@ -165,7 +165,11 @@ def judge(st, replace, requested, tin, tout, commented_template=False, first_lin
 
 
 def requested_strings(case):
-    return list(case["cpr"]) + list(case["lic"])
+    con = list(case.get("con", [])) if case.get("tmpl", "default") in ("default", "adds-text", "commented") else []
+    if len(case.get("f", "")) > 2 and case["f"][2] == "1":
+        # --merge-copyrights rewrites the notices (one line per holder, years as a range): the holders must still be named
+        return [re.sub(r"^.*\d{4},? ", "", c) for c in case["cpr"]] + list(case["lic"]) + con
+    return list(case["cpr"]) + list(case["lic"]) + con
 
 
 def licence_values(texts):
